@@ -159,7 +159,7 @@ class C11(Check):
                   'failure positions are few and swept: k in 0..2 for embedded applications and constructor lists); histories are sampled.')
     level_note = 'Trusted: the model routing tables and the dispatch model shared with C06.'
     forbidden_probes = ('failing-op-succeeded',)
-    required_probes = ('one-route-in-two-applications-with-equal-typed-stacks', 'sub-kth-fails-with-other-exception-type', 'strict-application', 'context-rendered-by-factory', 'embed-with-rebind-render', 'failed-add-unchanged', 'sub-kth-fails-unchanged', 'ctor-failed', 'route-bound-twice', 'embedded-then-child-changed',
+    required_probes = ('child-changed-after-subapplication-was-made', 'one-route-in-two-applications-with-equal-typed-stacks', 'sub-kth-fails-with-other-exception-type', 'strict-application', 'context-rendered-by-factory', 'embed-with-rebind-render', 'failed-add-unchanged', 'sub-kth-fails-unchanged', 'ctor-failed', 'route-bound-twice', 'embedded-then-child-changed',
                        'embed-depth-2', 'add-at-index')
 
     # ---- generation --------------------------------------------------------
@@ -206,8 +206,12 @@ class C11(Check):
                 ops.append({'op': 'add_tuple', 'app': i, 'entry': entry(), 'index': idx})
             elif r < 0.55 and len(live) > 1:
                 j = rng.choice(sorted(live - set([i])))
+                if rng.random() < 0.25:
+                    # the SubApplication object is made now and embedded later (the child may change in between)
+                    ops.append({'op': 'prepare_sub', 'app': i, 'child': j, 'prefix': rng.choice(['/p', '/pre/', '/sub/deep'])})
+                    continue
                 ops.append({'op': 'embed', 'app': i, 'child': j, 'prefix': rng.choice(['/p', '/p/', '/sub/deep', '/']),
-                            'index': idx, 'form': rng.choice(['tuple', 'subapp']), 'rebind': rng.random() < 0.3})
+                            'index': idx, 'form': rng.choice(['tuple', 'subapp', 'prepared', 'prepared']), 'rebind': rng.random() < 0.3})
             elif r < 0.75:
                 ops.append({'op': 'add_fail', 'app': i, 'kind': frng.choice(FAIL_KINDS), 'k': frng.randint(0, 2), 'index': idx,
                             'entries': [entry() for _ in range(3)]})
@@ -335,13 +339,28 @@ class C11(Check):
                     res.violate(K + 'add-failed:%s' % type(ex).__name__, 'step %d: valid add raised %r' % (step, ex), step)
                     break
                 self.insert(pool.model[i], [pool.bound_entry(e, i)], op['index'], res)
+            elif kind == 'prepare_sub':
+                j = op['child']
+                if j not in pool.apps:
+                    raise InvalidPlan('wrapping an application that does not exist')
+                pool.prepared = getattr(pool, 'prepared', {})
+                pool.prepared[j] = (SubApplication(op['prefix'], pool.apps[j]), op['prefix'], len(pool.model[j]))
             elif kind == 'embed':
                 j = op['child']
                 if j not in pool.apps:
                     raise InvalidPlan('embedding an application that does not exist')
                 prefix = op['prefix'].rstrip('/')
                 rebind = bool(op.get('rebind'))
-                if rebind:
+                prepared = getattr(pool, 'prepared', {}).get(j) if op.get('form') == 'prepared' else None
+                if prepared is not None:
+                    # a SubApplication made earlier: it embeds the child AS IT IS NOW
+                    entry, pfx, size_then = prepared
+                    prefix = pfx.rstrip('/')
+                    rebind = False
+                    res.probe('subapplication-object-made-earlier')
+                    if size_then != len(pool.model[j]):
+                        res.probe('child-changed-after-subapplication-was-made')
+                elif rebind:
                     entry = SubApplication(op['prefix'], pool.apps[j], rebind_render=True)
                     res.probe('embed-with-rebind-render')
                 else:
